@@ -619,6 +619,11 @@ func (l *Gpos2_2) encode() []byte {
 	total += l.Class1.AppendLen()
 	classDef2Offset := total
 	total += l.Class2.AppendLen()
+	if classDef2Offset > 0xFFFF || class1Count > 0xFFFF || class2Count > 0xFFFF ||
+		class1Count*class2Count > 0xFFFF {
+		// 16-bit offsets and counts; the last bound is the one readGpos2_2 enforces
+		panic("GPOS 2.2 subtable too large")
+	}
 
 	res := make([]byte, 0, total)
 	res = append(res,
@@ -765,16 +770,25 @@ func (l *Gpos3_1) encode() []byte {
 	exitOffs := make([]uint16, entryExitCount)
 	for i, rec := range l.Records {
 		if !rec.Entry.IsEmpty() {
+			if total > 0xFFFF {
+				panic("GPOS 3.1 anchor offset overflow")
+			}
 			entryOffs[i] = uint16(total)
 			total += 6
 		}
 		if !rec.Exit.IsEmpty() {
+			if total > 0xFFFF {
+				panic("GPOS 3.1 anchor offset overflow")
+			}
 			exitOffs[i] = uint16(total)
 			total += 6
 		}
 	}
 	coverageOffset := total
 	total += l.Cov.EncodeLen()
+	if coverageOffset > 0xFFFF {
+		panic("coverage offset overflow")
+	}
 
 	res := make([]byte, 0, total)
 
